@@ -144,3 +144,9 @@ func (r *WeightedRoundRobinSelection) VerifSetCounter(v uint32) { atomic.StoreUi
 
 // VerifTotalWeight returns the total weight computed by Provision.
 func (r *WeightedRoundRobinSelection) VerifTotalWeight() int { return r.totalWeight }
+
+// VerifFallback returns the provisioned fallback policy of a header / query /
+// cookie policy (so that a harness can reach a nested round-robin counter).
+func (s QueryHashSelection) VerifFallback() Selector  { return s.fallback }
+func (s HeaderHashSelection) VerifFallback() Selector { return s.fallback }
+func (s CookieHashSelection) VerifFallback() Selector { return s.fallback }
